@@ -57,7 +57,7 @@ def gen_helper(seed, tier, focus="C44"):
         return {"kind": kd, "server": ch.randrange(W, ("fs", i), nh), "method": ch.pick(W, ("fm", i), ["allocate_buckets", "write", "close"]),
                 "nth": ch.randint(W, ("fn", i), 1, 4)}
     for i in range(nops):
-        kd = ch.weighted(W, ("k", i), [("hupload", 6), ("concurrent", 2), ("lose-share", 1.2), ("restart-helper", 0.8), ("wait", 1.0)])
+        kd = ch.weighted(W, ("k", i), [("hupload", 6), ("concurrent", 2), ("lose-share", 1.2), ("wipe", 2.5), ("restart-helper", 0.8), ("wait", 1.0)])
         if kd == "hupload":
             ops.append(["hupload", ch.randrange(W, ("c", i), 2), fault(i)])
         elif kd == "concurrent":
@@ -66,8 +66,8 @@ def gen_helper(seed, tier, focus="C44"):
                                                                         ["close", n], ["write", ch.randint(W, ("gapw", i), 1, 10)]])])
         elif kd == "lose-share":
             ops.append(["lose-share", ch.randrange(W, ("s", i), nh), ch.randrange(W, ("sh", i), n)])
-        elif kd == "wait":
-            ops.append(["wait"])
+        elif kd in ("wait", "wipe"):
+            ops.append([kd])
         else:
             ops.append(["restart-helper", ch.pick(W, ("keep", i), [1.0, 0.0, 0.5])])
     return {"engine": "helpersim", "seed": seed, "focus": focus,
@@ -394,6 +394,12 @@ def exec_helper(case):
                 heal_all()
             elif kd == "wait":
                 wait_out_bucket_timeouts()
+            elif kd == "wipe":
+                # every share is lost: the next assisted upload is a full one again
+                for s_ in hservers:
+                    for shnum in list(s_.shares_of(si)):
+                        os.unlink(s_.share_path(si, shnum))
+                probe("wiped")
             if viol:
                 break
         # ---- after the faults: a fault-free assisted upload succeeds and everything is in place ----------
